@@ -4,6 +4,7 @@
 package sync
 
 import (
+	"math"
 	"bufio"
 	"encoding/json"
 	"errors"
@@ -379,6 +380,10 @@ func TestDrive(t *testing.T) {
 		sc := script{maxw: uint64(1 + rng.Intn(4)), initw: uint64(rng.Intn(5))}
 		if rng.Intn(6) == 0 {
 			sc.maxw, sc.initw = uint64(1+rng.Intn(64)), uint64(rng.Intn(64))
+		}
+		if rng.Intn(9) == 0 { // "unlimited": the default and other values beyond the signed range
+			sc.maxw = []uint64{math.MaxUint64, 1 << 63, 1<<63 + 3, math.MaxInt64}[rng.Intn(4)]
+			sc.initw = uint64(rng.Intn(3))
 		}
 		if rng.Intn(3) == 0 {
 			sc.du = int64(1+rng.Intn(20)) * 1e6
